@@ -105,9 +105,12 @@ class ProcessWorker(Worker):
                     self._child.terminate()
                     self._child.join(timeout)
                     if self._child.is_alive() and hasattr(self._child, 'kill'):
-                        # SIGTERM is not acted upon by a stopped process (and can be blocked or ignored): escalate
-                        self._child.kill()
-                        self._child.join(timeout)
+                        # SIGTERM is not acted upon by a stopped process (and can be blocked or ignored): escalate,
+                        # but give a child that handles SIGTERM (e.g. a server cleaning up its own children) a moment first
+                        self._child.join(1)
+                        if self._child.is_alive():
+                            self._child.kill()
+                            self._child.join(timeout)
                     # try:
                     #     self._comms.child_end.put((False, None))
                     #     self._comms.child_end.close()
